@@ -75,6 +75,16 @@ def gen_calendars(rnd, tier):
                 lens.append(n); tot += n + 1
             lens += [rnd.randint(1, 40) for _ in range(rnd.randint(1, 3))]
         cals.append(('att:%d' % k, attcal(lens)))
+    # long values that are folded: the line as it arrives (with its CRLF + blank folds and escapes) is longer than the 1 KiB the reader
+    # keeps, the value itself is not - it has to come through whole, wherever the pieces end
+    for n in ([600, 900, 1000, 1015, 1020, 1022] if tier == 'thorough' else [900, 1000, 1020]):
+        for col, eol in ((75, b'\r\n'), (20, b'\n'), (60, b'\r\n')):
+            val = (b'echo ' + b'abcdefghij' * 200)[:n - 8]
+            if col == 60: val = val.replace(b'j', b'\\,')[:n - 8]
+            L = []
+            for l in base:
+                L += fold(b'SUMMARY:' + val, col) if l.startswith(b'SUMMARY') else [l]
+            cals.append(('gen:longfold%d_%d' % (n, col), eol.join(L) + eol))
     # truncated and garbage
     whole = b'\r\n'.join(base) + b'\r\n'
     for cut in rnd.sample(range(1, len(whole)), 12 if tier == 'thorough' else 4):
